@@ -160,7 +160,8 @@ def _parse_common(text: str, **options: Any) -> datetime | date | time:
             month = 1
             day = 1
         else:
-            if options["day_first"]:
+            if options["day_first"] and m.group("monthsep"):
+                # YYYYMMDD is the ISO 8601 basic format, whatever follows it
                 month = int(m.group("day"))
                 day = int(m.group("month"))
             else:
